@@ -9,7 +9,8 @@
    abandoned request parks the loop for the life of the stream.  (The stream context ending - Close - releases
    everything and is left out: the property is about a stream that stays open.)                                  *)
 EXTENDS Naturals, FiniteSets
-CONSTANTS Flushers, Writer, WatchDone
+CONSTANTS Flushers, Writer, WatchDone,
+          SharedResult   \* TRUE: one result channel for all callers (the code before fix 51f0dfe); FALSE: one 1-buffered channel per request (never blocks the loop)
 VARIABLES pc, expired, loop, cur, got
 vars == <<pc, expired, loop, cur, got>>
 Procs == Flushers \cup {Writer}
@@ -28,10 +29,11 @@ GiveUp(p) == /\ pc[p] \in {"send", "wait"} /\ expired[p]
              /\ pc' = [pc EXCEPT ![p] = "done"] /\ got' = [got EXCEPT ![p] = "ctx"] /\ UNCHANGED <<expired, loop, cur>>
 FlushDone == /\ loop = "flushing" /\ loop' = "handing" /\ UNCHANGED <<pc, expired, cur, got>>
 \* the result channel is shared: whoever waits on it receives
-HandRes(q) == /\ loop = "handing" /\ q \in Flushers /\ pc[q] = "wait"
+HandRes(q) == /\ loop = "handing" /\ q \in Flushers /\ pc[q] = "wait" /\ (SharedResult \/ q = cur)
               /\ pc' = [pc EXCEPT ![q] = "done"] /\ got' = [got EXCEPT ![q] = cur] /\ loop' = "idle" /\ cur' = None /\ UNCHANGED expired
 DoneClosed(p) == expired[p] \/ pc[p] = "done"          \* ctx ended, or Flush returned (defer cancel)
-LoopAbandons == /\ WatchDone /\ loop = "handing" /\ DoneClosed(cur)
+LoopAbandons == /\ loop = "handing"
+                /\ (IF SharedResult THEN WatchDone /\ DoneClosed(cur) ELSE pc[cur] # "wait")
                 /\ loop' = "idle" /\ cur' = None /\ UNCHANGED <<pc, expired, got>>
 \* dpgCh: the loop's outer select takes the writer's points
 TakeWrite == /\ pc[Writer] = "send" /\ loop = "idle"
